@@ -56,7 +56,7 @@ ADAPTERS = {
     "avro": ("avro://{d}/o%75t.avro", "avro"),
     "sqlite": ("sqlite://{d}/out%41.db", "sqlite"),
     "csvfile": ("csvfile://{d}/out%41.csv", "csvfile"),
-    "line": ("line://{d}/out%41.txt", "line"),
+    "line": ("line://{d}/out%41.txt ", "line"),
     "text": ("text://{d}/out%24.txt", "text"),
 }
 EMPTY_VALID = ("stream", "streamgz", "jsonfile", "avro", "sqlite")
@@ -94,6 +94,11 @@ def gen_cases(rng, tier):
             for h in itertools.product("wfX", repeat=n):
                 if "X" in h:
                     cases.append({"kind": "life", "adapter": adapter, "hist": "".join(h)})
+    # a comparison-ignore configuration in force during the whole life of the writer (a de-duplicating producer): it
+    # concerns == and hash() only, every record is stored complete
+    for adapter in ADAPTERS:
+        for h in ("wwc", "wfwx", "wwwX"):
+            cases.append({"kind": "life", "adapter": adapter, "hist": h, "ignore": ["s", "_generated"]})
     # SQLite: record types whose name starts like SQLite's own tables
     for h in ("wc", "wwx", "wfwc", "wX", "w"):
         cases.append({"kind": "life", "adapter": "sqlite", "hist": h, "tname": 3})
@@ -135,7 +140,7 @@ def gen_cases(rng, tier):
     exts = [".records.gz", ".records.gz", ".records", "", ".json", ".v1.records"]
     for _ in range(nt):
         ext = r.choice(exts)
-        keys = r.sample(["A", "B", "C", "a.b", "k-1", "C%24", "x%41"], r.randint(1, 3))
+        keys = r.sample(["A", "B", "C", "a.b", "k-1", "C%24", "x%41", "A ", " B"], r.randint(1, 3))
         t = 1704067200 + r.randint(0, 5)
         writes = []
         for _ in range(r.choice([1, 2, 3, 4, 6, 9])):
@@ -338,6 +343,17 @@ def _is_open(w):
 
 
 def _run_life(case):
+    import flow.record.base as _B
+    saved = set(_B.IGNORE_FIELDS_FOR_COMPARISON)
+    if case.get("ignore"):
+        _B.set_ignored_fields_for_comparison(list(case["ignore"]))
+    try:
+        return _run_life_inner(case)
+    finally:
+        _B.set_ignored_fields_for_comparison(saved)
+
+
+def _run_life_inner(case):
     from flow.record import RecordWriter
     d = tempfile.mkdtemp(prefix="frv-c17-")
     try:
